@@ -199,7 +199,10 @@ theorem C12_alt_keeps_cursor (r : RState) (t : Term) (hT : Tracked r t) :
   have h2 := (step_sim r (modesOf t) .exitAlt hT).2
   rw [modesOf_applyOps, modesOf_applyOps, h1, h2]
   refine ⟨rfl, rfl, rfl, rfl, ?_, ?_⟩
-  · simp only [step, enterAlt]; split <;> rfl
+  · show (enterAlt r).1.cursorHidden = r.cursorHidden
+    cases ha : r.altActive with
+    | true => rw [enterAlt_active r ha]
+    | false => exact (enterAlt_fields r ha).2.2.2.2.2.2.2.1
   · simp only [step, exitAlt]; split <;> rfl
 
 /-! ### 6. a program that stays in the alt screen does not touch the main screen -/
